@@ -33,7 +33,8 @@ import threading
 from harness import core
 
 PREFIX = 'S__'          # one sector 'S' in one country: full names are S__<local>
-CASE_LIMIT_S = 20     # wall-clock limit for one execution of the code under test
+CASE_LIMITS_S = [20.0, 5.0, 2.0, 0.5]   # wall-clock limit for one execution of the code under test; it shrinks
+_hangs = [0]                            # with every hang seen so that a tree that loops cannot stall the check
 
 
 # --------------------------------------------------------------------------------------
@@ -373,18 +374,20 @@ def _limited(fn, seconds):
 
 
 def execute(case):
-    """-> (events, text).  A run that does not come back within CASE_LIMIT_S is recorded as raised 'Hang'
+    """-> (events, text).  A run that does not come back within the limit is recorded as raised 'Hang'
     (bounded work is C11's subject; here it only must not stall the check)."""
     def go():
         if case['api'] == 'model':
             return execute_model(case['cfg'], case['dress'], case['fseed'])
         return execute_block(case['cfg'], case['dress'], case['fseed'])
+    limit = CASE_LIMITS_S[min(_hangs[0], len(CASE_LIMITS_S) - 1)]
     try:
-        return _limited(go, CASE_LIMIT_S)
+        return _limited(go, limit)
     except _Hang:
+        _hangs[0] += 1
         pe = {'ev': 'Parse', 'cfg': case['cfg'], 'api': case['api'], 'dress': case['dress'], 'ok': False,
               'exc': 'Hang', 'classes': [], 'maxtime': 0}
-        return [pe, _no_solve('Hang', case['dress'])], '(no answer within %d s)' % CASE_LIMIT_S
+        return [pe, _no_solve('Hang', case['dress'])], '(no answer within %g s)' % limit
 
 
 # --------------------------------------------------------------------------------------
@@ -471,8 +474,8 @@ def make_cases(behs, seed, tier):
     cases = []
     for i, b in enumerate(behs):
         cases.append({'cfg': b['cfg'], 'api': 'block', 'dress': 'int', 'fseed': 0})
-    p_float = 0.45 if quick else 0.5
-    p_model = 0.60 if quick else 0.50
+    p_float = 0.45 if quick else 1.0
+    p_model = 0.60 if quick else 0.80
     for b in behs:
         cfg = b['cfg']
         if rng.random() < p_float:
@@ -523,7 +526,7 @@ def judge(rep, cases, count=True):
 
 def run(rep):
     cfgs = ['MC_Horizon_quick.cfg'] if rep.tier == 'quick' else ['MC_Horizon_quick.cfg', 'MC_Horizon_thorough.cfg']
-    rep.rule = ('configurations = all initial states of the bounded Horizon instance (3 blueprints x exogenous form '
+    rep.rule = ('configurations = all initial states of the bounded Horizon instance (4 blueprints x exogenous form '
                 'and length x initial condition on none / each non-exogenous variable / all, as float, int or '
                 'undefined name x horizon x MaxTime in block / on solver / absent x reduction on/off), each solved by '
                 'TLC and emitted; every one is replayed at block level with its integer values, a seeded sample again '
